@@ -54,18 +54,20 @@ Fixpoint listing_eqb (a b : list (N * bool)) : bool :=
 
 Definition log_count (st : fs) : nat := match logs st with NoLog => 0 | _ => 1 end.
 
-(* vd: variant of the delete loop of ReplaceFiles; vu: variant of deleteUnorderedFiles *)
-Definition model_run (vd vu : variant) (c : fcase) (r : frun) : fs * list N :=
+(* vd: variant of the delete loop of ReplaceFiles; vu: variant of deleteUnorderedFiles; vl: is an intent log that could not be
+   written / synced removed again (Repaired) or left behind (Current) *)
+Definition model_run (vd vu vl : variant) (c : fcase) (r : frun) : fs * list N :=
   let inuse := fun n => mem n (fc_inuse c) in
   let fails := fun i => match f_fail r with Some j => Nat.eqb i j | None => false end in
   let live0 := map fst (filter (fun e => negb (snd e)) (fc_fs0 c)) in
-  let x := replace_exec vd inuse fails 0 (f_old r) (f_new r) (fs0_of (fc_fs0 c)) live0 in
+  let x := replace_exec_c (match vl with Repaired => true | Current => false end) vd inuse fails 0 (f_old r) (f_new r)
+                          (fs0_of (fc_fs0 c)) live0 in
   if r_err x then (r_fs x, r_live x)
   else unord_loop_v vu inuse fails (r_next x) (fc_unord c) (r_fs x) (r_live x).
 
 (* 0 = agrees *)
-Definition run_code (vd vu : variant) (c : fcase) (r : frun) : nat :=
-  let '(st, live) := model_run vd vu c r in
+Definition run_code (vd vu vl : variant) (c : fcase) (r : frun) : nat :=
+  let '(st, live) := model_run vd vu vl c r in
   let re := recover (fc_univ c) st in
   if negb (listing_eqb (f_disk r) (disk_listing (fc_univ c) st)) then 61
   else if negb (Nat.eqb (f_log r) (log_count st)) then 62
@@ -101,21 +103,30 @@ Definition shape_code (c : fcase) : nat :=
   | [] => 0
   end.
 
-(* per run: (index, code under Repaired/Repaired, Repaired/Current, Current/Current) when the fully repaired model does not agree *)
-Fixpoint runs_from (c : fcase) (i : nat) (l : list frun) : list (nat * nat * nat * nat) :=
+(* which of the eight variant combinations agree with the run: bit 1 = delete loop as before e369601, bit 2 = deleteUnorderedFiles
+   as today, bit 4 = failed log left behind as today; the result has bit 2^k set iff combination k agrees *)
+Definition vof (b : bool) : variant := if b then Current else Repaired.
+Definition agree_mask (c : fcase) (r : frun) : nat :=
+  fold_left (fun acc k =>
+               let d := Nat.odd k in let u := Nat.odd (k / 2) in let l := Nat.odd (k / 4) in
+               match run_code (vof d) (vof u) (vof l) c r with 0 => acc + 2 ^ k | _ => acc end)
+            (seq 0 8) 0.
+
+(* per run: (index, code under the fully repaired model, agreement mask) when the fully repaired model does not agree *)
+Fixpoint runs_from (c : fcase) (i : nat) (l : list frun) : list (nat * nat * nat) :=
   match l with
   | [] => []
-  | r :: rest => match run_code Repaired Repaired c r with
+  | r :: rest => match run_code Repaired Repaired Repaired c r with
                  | 0 => runs_from c (S i) rest
-                 | code => (i, code, run_code Repaired Current c r, run_code Current Current c r) :: runs_from c (S i) rest
+                 | code => (i, code, agree_mask c r) :: runs_from c (S i) rest
                  end
   end.
 
-Definition fcase_mismatches (ci : nat) (c : fcase) : list (nat * nat * nat * nat * nat) :=
-  (match shape_code c with 0 => [] | code => [(ci, 0, code, code, code)] end) ++
-  map (fun t => match t with (i, a, b, d) => (ci, i, a, b, d) end) (runs_from c 0 (fc_runs c)).
+Definition fcase_mismatches (ci : nat) (c : fcase) : list (nat * nat * nat * nat) :=
+  (match shape_code c with 0 => [] | code => [(ci, 0, code, 0)] end) ++
+  map (fun t => match t with (i, a, b) => (ci, i, a, b) end) (runs_from c 0 (fc_runs c)).
 
-Fixpoint fmismatches_from (ci : nat) (cs : list fcase) : list (nat * nat * nat * nat * nat) :=
+Fixpoint fmismatches_from (ci : nat) (cs : list fcase) : list (nat * nat * nat * nat) :=
   match cs with
   | [] => []
   | c :: r => fcase_mismatches ci c ++ fmismatches_from (S ci) r
